@@ -7,7 +7,11 @@
 //   c04_attack  the same runs with ONE message of one class altered by an additive error on the wire
 //               (upgrade, multiply value part, multiply MAC part, propagate u, propagate w, reveal r,
 //               check-zero multiply, check-zero reveal, final reveal), in the first and in later batches
-//   c04_reveal  malicious_reveal alone: full / partial, one tampered copy
+//               plus the ADAPTIVE multi-batch attack (c04.adaptive): the deviating helper reads the key r' opened by the
+//               validation of an earlier batch off its own reveal-r traffic and sends (d, r'*d) on the multiply /
+//               duplicate-multiply messages of a record of a later batch; and the keys the batches use (c04.rbatch)
+//   c04_reveal  malicious_reveal alone: full / partial, one tampered copy; and EVERY `impl Reveal<Ctx> for Sharing` of
+//               basics/reveal.rs through its trait entry points on the real contexts (c04.revimpl)
 // (c04_pure lives in hooks/context.rs: it needs items private to protocol::context.)
 //
 // Requests:
@@ -15,6 +19,20 @@
 //   c04.chan   <field> <rpb> <count> <seed> <prog> <inputs>
 //   c04.attack <field> <rpb> <count> <seed> <prog> <inputs> <corrupt 1|2|3> <class> <target> <dir L|R|-> <delta>
 //   c04.reveal <field> <seed> <x> <excluded 1|2|3|-> <attacker 1|2|3|-> <dest 1|2|3|-> <delta>
+//   c04.revimpl <ctx> <sharing> <vtype> <entry reveal|partial|generic|method> <seed> <x> <excluded> <attacker> <dest> <delta>
+//               ctx = context alias of protocol/context/mod.rs, sharing = Replicated | MaliciousReplicated |
+//               BitDecomposed<Replicated> | BitDecomposed<MaliciousReplicated>; vtype = value type (`x<N>` = N lanes);
+//               x / delta: `+`-joined lanes (prime fields; RP25519: scalars s standing for the points s*G) or ONE number
+//               (Boolean arrays: the integer of the little-endian bytes); BitDecomposed: `+`-joined elements
+//   c04.revimpls  the `ctx/sharing` instances the suite drives
+//   c04.prf <lanes 1|16> <seed> <x lanes> <k> <attacker|-> <dest|-> <R|z> <delta lanes>   the real eval_dy_prf (MAC
+//               context, one record) with the copy of the opening of R = g^r (R: delta = scalars s for the points s*G)
+//               or of z that <attacker> sends to <dest> altered
+//   c04.adaptive <field> <rpb> <count> <seed> <prog> <inputs> <corrupt> <k> <target record> <key batch> <d> <w,w,…>
+//               messages of gate k (a multiplication) of the target record get +d (value part) and +r'*d (MAC part), r' =
+//               the key opened by <key batch> (earlier than the target's batch); the deviating helper's openings of
+//               wires w,… towards its right peer get +d
+//   c04.rbatch <field> <rpb> <count> <seed> <prog> <inputs>   honest run -> `r <key seen by record 0>,<record 1>,…`
 // prog   = gates joined by `.`: `u` upgrade the next input, `m<i>:<j>` multiply wires, `a<i>:<j>` add, `s<i>:<j>`
 //          subtract, `n<i>` negate, `k<i>:<c>` multiply by the public constant c. Wires are numbered in order.
 // inputs = one `v:v:…` group per record, groups joined by `,`.
@@ -45,18 +63,29 @@ use typenum::Unsigned;
 use super::proto::*;
 use crate::{
     error::Error,
-    ff::{Field, Fp31, Fp32BitPrime, Serializable, ec_prime_field::Fp25519},
+    ff::{
+        Field, Fp31, Fp32BitPrime, Serializable,
+        boolean::Boolean,
+        boolean_array::{BA8, BA64},
+        curve_points::RP25519,
+        ec_prime_field::Fp25519,
+    },
     helpers::{
         HelperIdentity, Role,
         in_memory_config::{InspectContext, StreamInterceptor},
     },
     protocol::{
         RecordId,
-        basics::{SecureMul, malicious_reveal, reveal},
-        context::{Context, UpgradableContext, UpgradedContext, Validator, upgrade::Upgradable},
+        basics::{Reveal, SecureMul, malicious_reveal, partial_reveal, reveal},
+        boolean::step::TwoHundredFiftySixBitOpStep,
+        ipa_prf::{prf_eval::eval_dy_prf, step::PrfStep},
+        context::{
+            Context, TEST_DZKP_STEPS, UpgradableContext, UpgradedContext, Validator, dzkp_validator::DZKPValidator,
+            upgrade::Upgradable,
+        },
     },
     secret_sharing::{
-        SharedValue, SharedValueArray, Vectorizable,
+        BitDecomposed, SharedValue, SharedValueArray, Vectorizable,
         replicated::{
             ReplicatedSecretSharing,
             malicious::{AdditiveShare as MaliciousReplicated, ThisCodeIsAuthorizedToDowngradeFromMalicious},
@@ -64,7 +93,7 @@ use crate::{
         },
     },
     seq_join::SeqJoin,
-    test_fixture::{TestWorld, TestWorldConfig},
+    test_fixture::{TestWorld, TestWorldConfig, WithShards},
     utils::NonZeroU32PowerOfTwo,
 };
 
@@ -211,21 +240,61 @@ struct Target {
     size: usize,
 }
 
-/// Records the bytes seen per (gate, src, dst) channel and alters the targeted messages with `apply`.
+/// messages captured so far (one slot per `sniff` entry)
+type Captured = [Option<Vec<u8>>];
+
+/// Records the bytes seen per (gate, src, dst) channel, copies the `sniff` messages and alters the targeted messages
+/// with `apply(index of the target, message, captured)` (which may decline: `false` = not applied).
 struct Tamper {
     targets: Vec<Target>,
-    apply: Box<dyn Fn(&mut [u8]) + Send + Sync>,
+    apply: Box<dyn Fn(usize, &mut [u8], &Captured) -> bool + Send + Sync>,
+    sniff: Vec<Target>,
+    captured: Mutex<Vec<Option<Vec<u8>>>>,
     seen: Mutex<BTreeMap<(String, u8, u8), usize>>,
     hits: AtomicUsize,
 }
 
 impl Tamper {
     fn new(targets: Vec<Target>, apply: Box<dyn Fn(&mut [u8]) + Send + Sync>) -> Self {
-        Tamper { targets, apply, seen: Mutex::new(BTreeMap::new()), hits: AtomicUsize::new(0) }
+        Self::adaptive(
+            targets,
+            vec![],
+            Box::new(move |_, b, _| {
+                apply(b);
+                true
+            }),
+        )
+    }
+
+    fn adaptive(
+        targets: Vec<Target>,
+        sniff: Vec<Target>,
+        apply: Box<dyn Fn(usize, &mut [u8], &Captured) -> bool + Send + Sync>,
+    ) -> Self {
+        let n = sniff.len();
+        Tamper {
+            targets,
+            apply,
+            sniff,
+            captured: Mutex::new(vec![None; n]),
+            seen: Mutex::new(BTreeMap::new()),
+            hits: AtomicUsize::new(0),
+        }
     }
 
     fn recorder() -> Self {
         Self::new(vec![], Box::new(|_| {}))
+    }
+}
+
+impl Target {
+    fn covers(&self, key: &(String, u8, u8), before: usize, len: usize) -> Option<usize> {
+        (key.1 == self.src
+            && key.2 == self.dst
+            && key.0.ends_with(&self.suffix)
+            && self.offset >= before
+            && self.offset + self.size <= before + len)
+            .then(|| self.offset - before)
     }
 }
 
@@ -242,16 +311,17 @@ impl StreamInterceptor for Tamper {
                 *e += data.len();
                 b
             };
-            for t in &self.targets {
-                if key.1 == t.src
-                    && key.2 == t.dst
-                    && key.0.ends_with(&t.suffix)
-                    && t.offset >= before
-                    && t.offset + t.size <= before + data.len()
-                {
-                    let i = t.offset - before;
-                    (self.apply)(&mut data[i..i + t.size]);
-                    self.hits.fetch_add(1, Ordering::SeqCst);
+            for (k, t) in self.sniff.iter().enumerate() {
+                if let Some(i) = t.covers(&key, before, data.len()) {
+                    self.captured.lock().unwrap()[k] = Some(data[i..i + t.size].to_vec());
+                }
+            }
+            for (k, t) in self.targets.iter().enumerate() {
+                if let Some(i) = t.covers(&key, before, data.len()) {
+                    let captured = self.captured.lock().unwrap().clone();
+                    if (self.apply)(k, &mut data[i..i + t.size], &captured) {
+                        self.hits.fetch_add(1, Ordering::SeqCst);
+                    }
                 }
             }
         }
@@ -301,8 +371,9 @@ fn locate(a: &Attack) -> (String, usize, usize) {
 // ------------------------------------------------------------------------------------------ runs
 
 enum Outcome {
-    /// every helper we waited for returned Ok: opened[record][wire] per helper index, mac flag
-    Done(Vec<Option<Vec<Vec<String>>>>, bool),
+    /// every helper we waited for returned Ok: opened[record][wire] per helper index, mac flag, and (when all three
+    /// helpers finished) the reconstructed key `r` each record computed under
+    Done(Vec<Option<Vec<Vec<String>>>>, bool, Vec<String>),
     Abort(String),
 }
 
@@ -425,11 +496,13 @@ macro_rules! mac_runner {
                 .collect();
             // MAC / consistency check (meaningful when all three helpers finished)
             let mut mac_ok = outs.iter().all(Option::is_some);
+            let mut keys: Vec<String> = vec![];
             if mac_ok {
                 let o: Vec<_> = outs.iter().map(|x| x.as_ref().unwrap()).collect();
                 let vec_of = |a: &Arr| -> Vec<F> { a.clone().into_iter().collect() };
                 for i in 0..count {
                     let r = o[0][i].1.left() + o[1][i].1.left() + o[2][i].1.left();
+                    keys.push(show::<F>(&r));
                     for h in 0..3 {
                         mac_ok &= o[h][i].1.right() == o[(h + 1) % 3][i].1.left();
                     }
@@ -451,7 +524,7 @@ macro_rules! mac_runner {
                     }
                 }
             }
-            Outcome::Done(opened, mac_ok)
+            Outcome::Done(opened, mac_ok, keys)
         }
     };
 }
@@ -546,7 +619,7 @@ fn exec_mac(req: &str) -> String {
         "c04.honest" => match run_blocking(t[1], spec, None, None) {
             Err(e) => e,
             Ok(Outcome::Abort(_)) => "abort".into(),
-            Ok(Outcome::Done(opened, mac)) => {
+            Ok(Outcome::Done(opened, mac, _)) => {
                 let o: Vec<_> = opened.iter().map(|x| x.as_ref().unwrap()).collect();
                 if o[0] != o[1] || o[1] != o[2] {
                     return format!("disagree {}|{}|{}", show_opened(o[0]), show_opened(o[1]), show_opened(o[2]));
@@ -610,7 +683,53 @@ fn exec_mac(req: &str) -> String {
                         "abort:error".into()
                     }
                 }
-                Ok(Outcome::Done(opened, _)) => {
+                Ok(Outcome::Done(opened, _, _)) => {
+                    if hits < n_targets {
+                        return "untouched".into();
+                    }
+                    let o: Vec<_> = (0..3).filter(|h| *h != corrupt).map(|h| opened[h].as_ref().unwrap()).collect();
+                    if o[0] != o[1] {
+                        return format!("disagree {}|{}", show_opened(o[0]), show_opened(o[1]));
+                    }
+                    format!("ok {} -", show_opened(o[0]))
+                }
+            }
+        }
+        "c04.rbatch" => match run_blocking(t[1], spec, None, None) {
+            Err(e) => e,
+            Ok(Outcome::Abort(_)) => "abort".into(),
+            Ok(Outcome::Done(_, _, keys)) => format!("r {}", keys.join(",")),
+        },
+        "c04.adaptive" => {
+            let corrupt = t[7].parse::<usize>().unwrap() - 1;
+            let k: usize = t[8].parse().unwrap();
+            let target: usize = t[9].parse().unwrap();
+            let key_batch: usize = t[10].parse().unwrap();
+            assert!(matches!(spec.prog[k], GateOp::M(..)), "harness: gate {k} is not a multiplication");
+            assert!(key_batch < target / spec.rpb, "harness: the key must have been opened before the target's batch runs");
+            assert_eq!(field_lanes(t[1]).1, 1, "harness: scalar fields only");
+            let size = size_of_field(t[1]);
+            let (c, l, r) = (corrupt as u8 + 1, left_of(corrupt) as u8 + 1, right_of(corrupt) as u8 + 1);
+            // what the deviating helper itself sees of the opening of the earlier batch's key: the two shares it sends and
+            // the third one, which it receives from its left peer
+            let rr = |src: u8, dst: u8| Target { suffix: "/validate/reveal_r".into(), src, dst, offset: key_batch * size, size };
+            let sniff = vec![rr(c, r), rr(c, l), rr(l, c)];
+            let mut targets = vec![
+                Target { suffix: format!("/m{k}"), src: c, dst: l, offset: target * size, size },
+                Target { suffix: format!("/m{k}/duplicate_multiply"), src: c, dst: l, offset: target * size, size },
+            ];
+            for w in t[12].split(',').filter(|w| *w != "-") {
+                targets.push(Target { suffix: format!("/o{w}"), src: c, dst: r, offset: target * size, size });
+            }
+            let n_targets = targets.len();
+            let tamper = Arc::new(Tamper::adaptive(targets, sniff, adaptive_apply(t[1], t[11])));
+            let out = run_blocking(t[1], spec, Some(tamper.clone()), Some(corrupt));
+            let hits = tamper.hits.load(Ordering::SeqCst);
+            match out {
+                // the two multiplication messages went out altered; the openings may never be reached
+                Err(_) => if hits < 2 { "untouched".into() } else { "abort:hang".into() },
+                Ok(Outcome::Abort(_)) => if hits < 2 { "untouched".into() } else { "abort:error".into() },
+                Ok(Outcome::Done(opened, _, _)) => {
                     if hits < n_targets {
                         return "untouched".into();
                     }
@@ -623,6 +742,30 @@ fn exec_mac(req: &str) -> String {
             }
         }
         x => panic!("harness: unknown request {x}"),
+    }
+}
+
+/// the adaptive attack: message 0 (value part of the product) gets `+d`, message 1 (MAC part) `+r'*d` where `r'` is the
+/// sum of the three captured shares of the earlier batch's key, the opening messages `+d`
+fn adaptive_apply(field: &str, d: &str) -> Box<dyn Fn(usize, &mut [u8], &Captured) -> bool + Send + Sync> {
+    fn mk<F: Field + Serializable>(d: &str) -> Box<dyn Fn(usize, &mut [u8], &Captured) -> bool + Send + Sync> {
+        let d: F = val::<F>(d);
+        Box::new(move |idx: usize, buf: &mut [u8], cap: &Captured| {
+            if cap.iter().any(Option::is_none) {
+                return false;
+            }
+            let r = cap.iter().fold(F::ZERO, |a, c| a + F::deserialize_from_slice(c.as_ref().unwrap()));
+            let delta = if idx == 1 { r * d } else { d };
+            let v = F::deserialize_from_slice(buf) + delta;
+            v.serialize_to_slice(buf);
+            true
+        })
+    }
+    match field {
+        "Fp31" => mk::<Fp31>(d),
+        "Fp32BitPrime" => mk::<Fp32BitPrime>(d),
+        "Fp25519" => mk::<Fp25519>(d),
+        f => panic!("harness: unknown field {f}"),
     }
 }
 
@@ -920,6 +1063,54 @@ fn verif_c04_attack() {
                     ));
                 }
             }
+            // the ADAPTIVE multi-batch attack: the key opened by the validation of an earlier batch is used to forge the
+            // MAC of a multiplication of a later batch (errors d on x*y, r'*d on rx*y, +d on the deviating helper's openings
+            // of the wires that carry the product). Fresh per-batch keys make the batch fail; a key shared by the
+            // batches would let it pass with a product off by d.
+            // (rpb, count, prog, attacked gate, opened wires that carry the product)
+            let acases: [(usize, usize, &str, usize, &str); 6] = [
+                (2, 4, "u.u.m0:1", 2, "2"),
+                (2, 3, "u.u.m0:1", 2, "2"),
+                (2, 6, "u.u.m0:1.a2:0", 2, "2,3"),
+                (4, 8, "u.u.m0:1", 2, "2"),
+                (4, 10, "u.u.u.m0:1.s3:2", 3, "3,4"),
+                (2, 5, "u.m0:0", 1, "1"),
+            ];
+            let afields: &[&str] = &["Fp32BitPrime", "Fp25519"];
+            for field in afields {
+                let reps = if thorough { 4 } else { 2 };
+                for rep in 0..reps {
+                    for (n, (rpb, count, prog, k, wires)) in acases.iter().enumerate() {
+                        let batches = count.div_ceil(*rpb);
+                        // the target's batch: the last one and, with three batches, also the middle one
+                        let tb = if batches > 2 && (n + rep) % 2 == 0 { 1 } else { batches - 1 };
+                        let lo = tb * rpb;
+                        let hi = ((tb + 1) * rpb).min(*count);
+                        let target = lo + rng.usize_below(hi - lo);
+                        let key_batch = rng.usize_below(tb);
+                        let corrupt = 1 + (n + rep) % 3;
+                        let d = match (n + rep) % 3 {
+                            0 => "1".to_string(),
+                            1 => if *field == "Fp25519" { ELL_M1.to_string() } else { (P32 - 1).to_string() },
+                            _ => nonzero_val(rng, field),
+                        };
+                        let inputs = gen_inputs(rng, field, prog, *count, false, true);
+                        out.push(format!(
+                            "c04.adaptive {field} {rpb} {count} {} {prog} {inputs} {corrupt} {k} {target} {key_batch} {d} {wires}",
+                            rng.below(1 << 30)
+                        ));
+                    }
+                }
+            }
+            // the keys the batches compute under: one per batch, different batches different keys
+            for field in ["Fp32BitPrime", "Fp25519"] {
+                let shapes: &[(usize, usize)] = if thorough { &[(2, 4), (2, 5), (2, 7), (4, 4), (4, 9), (8, 17), (16, 40)] } else { &[(2, 4), (2, 5), (4, 9), (8, 17)] };
+                for (rpb, count) in shapes {
+                    let prog = "u.u.m0:1";
+                    let inputs = gen_inputs(rng, field, prog, *count, false, false);
+                    out.push(format!("c04.rbatch {field} {rpb} {count} {} {prog} {inputs}", rng.below(1 << 30)));
+                }
+            }
             out
         },
         exec_mac,
@@ -957,12 +1148,621 @@ reveal_runner!(reveal_fp31, Fp31);
 reveal_runner!(reveal_fp32, Fp32BitPrime);
 reveal_runner!(reveal_fp25519, Fp25519);
 
+// ------------------------------------------------------------------------------------------ every Reveal impl
+
+/// a value type `V` with `N` lanes: parsing / showing / drawing arrays of it
+trait Vt<const N: usize>: SharedValue + Vectorizable<N> {
+    fn parse(s: &str) -> <Self as Vectorizable<N>>::Array;
+    /// `cands[lane]`: scalars whose points may be recognised (RP25519 only: a point is shown as the scalar `s` of the
+    /// request with `s*G` = the point, or as `pt:<hex>`)
+    fn show(a: &<Self as Vectorizable<N>>::Array, cands: &[Vec<String>]) -> String;
+    fn random(rng: &mut Rng) -> <Self as Vectorizable<N>>::Array;
+}
+
+/// a canonical random element of a prime field
+fn draw_canonical<F: Serializable>(rng: &mut Rng) -> F {
+    let mut b = rng.bytes(F::Size::USIZE);
+    let n = b.len();
+    b[n - 1] &= 0x0f;
+    if n == 1 {
+        b[0] %= 31;
+    } else if n == 4 {
+        b[3] &= 0x7f;
+    }
+    F::deserialize_from_slice(&b)
+}
+
+macro_rules! vt_lanes {
+    ($v:ty, $n:expr) => {
+        impl Vt<$n> for $v {
+            fn parse(s: &str) -> <Self as Vectorizable<$n>>::Array {
+                let l = lanes_of(s);
+                assert_eq!(l.len(), $n, "harness: {} lanes expected", $n);
+                SharedValueArray::from_fn(|i| val::<$v>(l[i]))
+            }
+            fn show(a: &<Self as Vectorizable<$n>>::Array, _: &[Vec<String>]) -> String {
+                a.clone().into_iter().map(|v| show::<$v>(&v)).collect::<Vec<_>>().join("+")
+            }
+            fn random(rng: &mut Rng) -> <Self as Vectorizable<$n>>::Array {
+                SharedValueArray::from_fn(|_| draw_canonical::<$v>(rng))
+            }
+        }
+    };
+}
+
+/// Boolean arrays: the whole array is one number (the integer of its little-endian bytes)
+macro_rules! vt_whole {
+    ($v:ty, $n:expr, $mask:expr) => {
+        impl Vt<$n> for $v {
+            fn parse(s: &str) -> <Self as Vectorizable<$n>>::Array {
+                val::<<Self as Vectorizable<$n>>::Array>(s)
+            }
+            fn show(a: &<Self as Vectorizable<$n>>::Array, _: &[Vec<String>]) -> String {
+                show::<<Self as Vectorizable<$n>>::Array>(a)
+            }
+            fn random(rng: &mut Rng) -> <Self as Vectorizable<$n>>::Array {
+                let mut b = rng.bytes(<<Self as Vectorizable<$n>>::Array as Serializable>::Size::USIZE);
+                let n = b.len();
+                b[n - 1] &= $mask;
+                <<Self as Vectorizable<$n>>::Array as Serializable>::deserialize_from_slice(&b)
+            }
+        }
+    };
+}
+
+macro_rules! vt_points {
+    ($n:expr) => {
+        impl Vt<$n> for RP25519 {
+            fn parse(s: &str) -> <Self as Vectorizable<$n>>::Array {
+                let l = lanes_of(s);
+                assert_eq!(l.len(), $n, "harness: {} lanes expected", $n);
+                SharedValueArray::from_fn(|i| RP25519::from(val::<Fp25519>(l[i])))
+            }
+            fn show(a: &<Self as Vectorizable<$n>>::Array, cands: &[Vec<String>]) -> String {
+                a.clone()
+                    .into_iter()
+                    .enumerate()
+                    .map(|(i, v)| {
+                        cands
+                            .get(i)
+                            .and_then(|c| c.iter().find(|s| RP25519::from(val::<Fp25519>(s)) == v).cloned())
+                            .unwrap_or_else(|| {
+                                let mut buf = vec![0u8; <RP25519 as Serializable>::Size::USIZE];
+                                v.serialize_to_slice(&mut buf);
+                                format!("pt:{}", buf.iter().map(|b| format!("{b:02x}")).collect::<String>())
+                            })
+                    })
+                    .collect::<Vec<_>>()
+                    .join("+")
+            }
+            fn random(rng: &mut Rng) -> <Self as Vectorizable<$n>>::Array {
+                SharedValueArray::from_fn(|_| RP25519::from(draw_canonical::<Fp25519>(rng)))
+            }
+        }
+    };
+}
+
+vt_lanes!(Fp31, 1);
+vt_lanes!(Fp32BitPrime, 1);
+vt_lanes!(Fp32BitPrime, 32);
+vt_lanes!(Fp25519, 1);
+vt_lanes!(Fp25519, 16);
+vt_points!(1);
+vt_points!(16);
+vt_whole!(Boolean, 1, 0x01);
+vt_whole!(Boolean, 64, 0xff);
+vt_whole!(Boolean, 256, 0xff);
+vt_whole!(BA8, 1, 0xff);
+vt_whole!(BA64, 1, 0xff);
+
+/// replicated sharing of the array `x` with shares drawn from `rng`
+fn share3_arr<V: Vt<N>, const N: usize>(rng: &mut Rng, x: &<V as Vectorizable<N>>::Array) -> Vec<Replicated<V, N>> {
+    let s0 = V::random(rng);
+    let s1 = V::random(rng);
+    let s2 = x.clone() - &s0 - &s1;
+    vec![
+        Replicated::new_arr(s0.clone(), s1.clone()),
+        Replicated::new_arr(s1, s2.clone()),
+        Replicated::new_arr(s2, s0),
+    ]
+}
+
+#[derive(Clone)]
+struct RevReq {
+    ctx: String,
+    sharing: String,
+    vtype: String,
+    entry: String,
+    seed: u64,
+    x: String,
+    ex: Option<usize>,
+    at: Option<usize>,
+    dest: Option<usize>,
+    delta: String,
+}
+
+impl RevReq {
+    /// per lane: the scalars a point may be shown as (the value, the value plus the error)
+    fn cands(&self) -> Vec<Vec<String>> {
+        if !self.vtype.starts_with("RP25519") {
+            return vec![];
+        }
+        let d = lanes_of(&self.delta);
+        lanes_of(&self.x)
+            .iter()
+            .enumerate()
+            .map(|(i, x)| {
+                let xv = val::<Fp25519>(x);
+                let dv = val::<Fp25519>(d.get(i).copied().unwrap_or("0"));
+                vec![(*x).to_string(), show::<Fp25519>(&(xv + dv))]
+            })
+            .collect()
+    }
+
+    /// element-wise sharing with an altered copy: only the helper that receives it is reported
+    fn only(&self) -> Option<usize> {
+        let altered = self.at.is_some() && self.delta.split('+').any(|d| d != "0");
+        if self.sharing.starts_with("BitDecomposed") && altered { self.dest } else { None }
+    }
+
+    /// the interceptor altering the copy `at` sends to `dest`: one array of `V` (`elements` = false) or the arrays of
+    /// the elements of a `BitDecomposed` (one message per element, in the element's own step)
+    fn tamper<V: Vt<N>, const N: usize>(&self, elements: bool) -> Option<Arc<Tamper>> {
+        let (at, dest) = (self.at?, self.dest?);
+        let size = <<V as Vectorizable<N>>::Array as Serializable>::Size::USIZE;
+        let deltas: Vec<<V as Vectorizable<N>>::Array> =
+            if elements { self.delta.split('+').map(|d| V::parse(d)).collect() } else { vec![V::parse(&self.delta)] };
+        let zero = <<V as Vectorizable<N>>::Array as SharedValueArray<V>>::ZERO_ARRAY;
+        // elements that carry an error (all of them when there is none: the message is then "altered" by zero)
+        let mut idx: Vec<usize> = (0..deltas.len()).filter(|i| deltas[*i] != zero).collect();
+        if idx.is_empty() {
+            idx.push(0);
+        }
+        let targets = idx
+            .iter()
+            .map(|i| Target {
+                suffix: if elements {
+                    format!("/c04reveal/{}", TwoHundredFiftySixBitOpStep::from(*i).as_ref())
+                } else {
+                    "/c04reveal".into()
+                },
+                src: at as u8 + 1,
+                dst: dest as u8 + 1,
+                offset: 0,
+                size,
+            })
+            .collect();
+        Some(Arc::new(Tamper::adaptive(
+            targets,
+            vec![],
+            Box::new(move |k: usize, buf: &mut [u8], _: &Captured| {
+                let v = <<V as Vectorizable<N>>::Array as Serializable>::deserialize_from_slice(buf) + &deltas[idx[k]];
+                v.serialize_to_slice(buf);
+                true
+            }),
+        )))
+    }
+}
+
+fn rev_config(seed: u64, tamper: &Option<Arc<Tamper>>) -> TestWorldConfig {
+    let mut config = TestWorldConfig::default().with_seed(seed);
+    if let Some(t) = tamper {
+        config.stream_interceptor = t.clone();
+    }
+    config
+}
+
+/// one opening on the three helpers through the chosen entry point of the `Reveal` trait.
+/// `only` = Some(h): report helper `h` alone and `~` for the others (element-wise openings with an altered copy: the
+/// helper that detects the mismatch stops, and whether its peers had everything they needed by then is a race).
+async fn rev_drive<C, S>(
+    ctxs: Vec<C>,
+    shares: &[S],
+    entry: &str,
+    ex: Option<usize>,
+    only: Option<usize>,
+    show_out: &(dyn Fn(&S::Output) -> String + Sync),
+) -> String
+where
+    C: Context,
+    S: Reveal<C> + Send + Sync,
+{
+    let mut futs = ctxs
+        .into_iter()
+        .zip(shares.iter())
+        .enumerate()
+        .map(|(h, (ctx, s))| async move {
+            let rid = RecordId::FIRST;
+            let exr = ex.map(|e| Role::all()[e]);
+            let r = match (entry, exr) {
+                ("reveal", None) => reveal(ctx, rid, s).await.map(Some),
+                ("partial", Some(e)) => partial_reveal(ctx, rid, e, s).await,
+                ("generic", e) => s.generic_reveal(ctx, rid, e).await,
+                ("method", None) => s.reveal(ctx, rid).await.map(Some),
+                ("method", Some(e)) => s.partial_reveal(ctx, rid, e).await,
+                (x, _) => panic!("harness: entry point {x} does not fit the request"),
+            };
+            let o = match r {
+                Ok(Some(v)) => format!("ok:{}", show_out(&v)),
+                Ok(None) => "none".to_string(),
+                Err(Error::MaliciousRevealFailed) => "fail".to_string(),
+                Err(e) => format!("err:{}", kind(&e)),
+            };
+            (h, o)
+        })
+        .collect::<FuturesUnordered<_>>();
+    let mut outs = vec!["~".to_string(); 3];
+    while let Some((h, o)) = futs.next().await {
+        if only.is_none() || only == Some(h) {
+            outs[h] = o;
+        }
+        if only == Some(h) {
+            break;
+        }
+    }
+    outs.join(",")
+}
+
+/// the three helpers' upgraded contexts of one kind, bound to `$ctxs` for `$body`
+macro_rules! with_ctxs {
+    (mac, $q:expr, $tamper:expr, $ctxf:ty, |$ctxs:ident| $body:expr) => {{
+        let world = TestWorld::new_with(rev_config($q.seed, &$tamper));
+        let vals: Vec<_> =
+            world.malicious_contexts().into_iter().map(|c| c.set_total_records(1usize).validator::<$ctxf>()).collect();
+        let $ctxs: Vec<_> = vals.iter().map(|v| v.context()).collect();
+        let r = $body;
+        drop(vals);
+        r
+    }};
+    (macsharded, $q:expr, $tamper:expr, $ctxf:ty, |$ctxs:ident| $body:expr) => {{
+        let world: TestWorld<WithShards<2>> = TestWorld::with_shards(rev_config($q.seed, &$tamper));
+        let per_helper = world.malicious_contexts();
+        let vals: Vec<_> =
+            per_helper.iter().map(|shards| shards[0].clone().set_total_records(1usize).validator::<$ctxf>()).collect();
+        let $ctxs: Vec<_> = vals.iter().map(|v| v.context()).collect();
+        let r = $body;
+        drop(vals);
+        r
+    }};
+    (dzkp, $q:expr, $tamper:expr, $ctxf:ty, |$ctxs:ident| $body:expr) => {{
+        let world = TestWorld::new_with(rev_config($q.seed, &$tamper));
+        let vals: Vec<_> = world
+            .malicious_contexts()
+            .into_iter()
+            .map(|c| c.set_total_records(1usize).dzkp_validator(TEST_DZKP_STEPS, 8))
+            .collect();
+        let $ctxs: Vec<_> = vals.iter().map(|v| v.context()).collect();
+        let r = $body;
+        drop(vals);
+        r
+    }};
+    (sh, $q:expr, $tamper:expr, $ctxf:ty, |$ctxs:ident| $body:expr) => {{
+        let world = TestWorld::new_with(rev_config($q.seed, &$tamper));
+        let vals: Vec<_> =
+            world.contexts().into_iter().map(|c| c.set_total_records(1usize).validator::<$ctxf>()).collect();
+        let $ctxs: Vec<_> = vals.iter().map(|v| v.context()).collect();
+        let r = $body;
+        drop(vals);
+        r
+    }};
+    (dzkpsh, $q:expr, $tamper:expr, $ctxf:ty, |$ctxs:ident| $body:expr) => {{
+        let world = TestWorld::new_with(rev_config($q.seed, &$tamper));
+        let vals: Vec<_> = world
+            .contexts()
+            .into_iter()
+            .map(|c| c.set_total_records(1usize).dzkp_validator(TEST_DZKP_STEPS, 8))
+            .collect();
+        let $ctxs: Vec<_> = vals.iter().map(|v| v.context()).collect();
+        let r = $body;
+        drop(vals);
+        r
+    }};
+}
+
+/// `Replicated<V, N>` opened in a context of kind `$kind`
+macro_rules! rev_plain {
+    ($q:expr, $kind:ident, $ctxf:ty, $v:ty, $n:expr) => {{
+        type V = $v;
+        const N: usize = $n;
+        let q = &$q;
+        let tamper = q.tamper::<V, N>(false);
+        let mut rng = Rng(q.seed ^ 0xC04);
+        let shares = share3_arr::<V, N>(&mut rng, &<V as Vt<N>>::parse(&q.x));
+        let cands = q.cands();
+        let show_out = |a: &<V as Vectorizable<N>>::Array| <V as Vt<N>>::show(a, &cands);
+        let out = with_ctxs!($kind, q, tamper, $ctxf, |ctxs| {
+            let ctxs: Vec<_> = ctxs.iter().map(|c| c.narrow("c04reveal")).collect();
+            rev_drive(ctxs, &shares, &q.entry, q.ex, q.only(), &show_out).await
+        });
+        (out, tamper)
+    }};
+}
+
+/// `BitDecomposed<Replicated<V, N>>`: the `+`-joined elements
+macro_rules! rev_bits {
+    ($q:expr, $kind:ident, $ctxf:ty, $v:ty, $n:expr) => {{
+        type V = $v;
+        const N: usize = $n;
+        let q = &$q;
+        let tamper = q.tamper::<V, N>(true);
+        let mut rng = Rng(q.seed ^ 0xC04);
+        let mut per_helper: Vec<Vec<Replicated<V, N>>> = vec![vec![], vec![], vec![]];
+        for el in q.x.split('+') {
+            for (h, s) in share3_arr::<V, N>(&mut rng, &<V as Vt<N>>::parse(el)).into_iter().enumerate() {
+                per_helper[h].push(s);
+            }
+        }
+        let shares: Vec<BitDecomposed<Replicated<V, N>>> = per_helper.into_iter().map(BitDecomposed::new).collect();
+        let show_out = |a: &Vec<<V as Vectorizable<N>>::Array>| {
+            a.iter().map(|e| <V as Vt<N>>::show(e, &[])).collect::<Vec<_>>().join("+")
+        };
+        let out = with_ctxs!($kind, q, tamper, $ctxf, |ctxs| {
+            let ctxs: Vec<_> = ctxs.iter().map(|c| c.narrow("c04reveal")).collect();
+            rev_drive(ctxs, &shares, &q.entry, q.ex, q.only(), &show_out).await
+        });
+        (out, tamper)
+    }};
+}
+
+/// `MaliciousReplicated<F, N>` (`$bits` = false) or `BitDecomposed<MaliciousReplicated<F, 1>>` of the `+`-joined elements:
+/// upgraded (and validated) honestly under the MAC context, then opened
+macro_rules! rev_mac {
+    ($q:expr, $kind:ident, $f:ty, $n:expr, $bits:expr) => {{
+        type V = $f;
+        const N: usize = $n;
+        let q = &$q;
+        let tamper = q.tamper::<V, N>($bits);
+        let mut rng = Rng(q.seed ^ 0xC04);
+        let els: Vec<&str> = if $bits { q.x.split('+').collect() } else { vec![q.x.as_str()] };
+        let mut per_helper: Vec<Vec<Replicated<V, N>>> = vec![vec![], vec![], vec![]];
+        for el in &els {
+            for (h, s) in share3_arr::<V, N>(&mut rng, &<V as Vt<N>>::parse(el)).into_iter().enumerate() {
+                per_helper[h].push(s);
+            }
+        }
+        let out = with_ctxs!($kind, q, tamper, $f, |ctxs| {
+            let ups: Vec<Vec<MaliciousReplicated<V, N>>> =
+                futures::future::join_all(ctxs.iter().zip(per_helper).map(|(c, shares)| async move {
+                    let mut v = vec![];
+                    for (i, s) in shares.into_iter().enumerate() {
+                        v.push(s.upgrade(c.narrow(&format!("c04up{i}")), RecordId::FIRST).await.expect("harness: upgrade"));
+                    }
+                    c.validate_record(RecordId::FIRST).await.expect("harness: honest upgrade validates");
+                    v
+                }))
+                .await;
+            let ctxs: Vec<_> = ctxs.iter().map(|c| c.narrow("c04reveal")).collect();
+            if $bits {
+                let shares: Vec<BitDecomposed<MaliciousReplicated<V, N>>> = ups.into_iter().map(BitDecomposed::new).collect();
+                let show_out = |a: &Vec<<V as Vectorizable<N>>::Array>| {
+                    a.iter().map(|e| <V as Vt<N>>::show(e, &[])).collect::<Vec<_>>().join("+")
+                };
+                rev_drive(ctxs, &shares, &q.entry, q.ex, q.only(), &show_out).await
+            } else {
+                let shares: Vec<MaliciousReplicated<V, N>> = ups.into_iter().map(|mut v| v.remove(0)).collect();
+                let show_out = |a: &<V as Vectorizable<N>>::Array| <V as Vt<N>>::show(a, &[]);
+                rev_drive(ctxs, &shares, &q.entry, q.ex, q.only(), &show_out).await
+            }
+        });
+        (out, tamper)
+    }};
+}
+
+const MAC: &str = "UpgradedMaliciousContext";
+const MACS: &str = "ShardedUpgradedMaliciousContext";
+const DZKP: &str = "DZKPUpgradedMaliciousContext";
+const SH: &str = "UpgradedSemiHonestContext";
+const DZKPSH: &str = "DZKPUpgradedSemiHonestContext";
+const REP: &str = "Replicated";
+const MREP: &str = "MaliciousReplicated";
+const BREP: &str = "BitDecomposed<Replicated>";
+const BMREP: &str = "BitDecomposed<MaliciousReplicated>";
+
+/// the (context, sharing, value type) combinations the suite drives
+const REV_CASES: [(&str, &str, &str); 42] = [
+    (MAC, REP, "Fp31"), (MAC, REP, "Fp32BitPrime"), (MAC, REP, "Fp32BitPrimex32"), (MAC, REP, "Fp25519"),
+    (MAC, REP, "Fp25519x16"), (MAC, REP, "RP25519"), (MAC, REP, "RP25519x16"), (MAC, REP, "Boolean"),
+    (MAC, REP, "Booleanx64"), (MAC, REP, "Booleanx256"), (MAC, REP, "BA8"), (MAC, REP, "BA64"),
+    (MAC, MREP, "Fp31"), (MAC, MREP, "Fp32BitPrime"), (MAC, MREP, "Fp25519"), (MAC, MREP, "Fp25519x16"),
+    (MAC, BREP, "Boolean"), (MAC, BREP, "Booleanx64"), (MAC, BMREP, "Fp32BitPrime"),
+    (MACS, REP, "Fp25519"), (MACS, REP, "RP25519x16"), (MACS, REP, "Booleanx64"), (MACS, REP, "BA8"),
+    (MACS, MREP, "Fp32BitPrime"), (MACS, MREP, "Fp25519"), (MACS, BREP, "Boolean"), (MACS, BMREP, "Fp32BitPrime"),
+    (DZKP, REP, "Boolean"), (DZKP, REP, "Booleanx64"), (DZKP, REP, "Booleanx256"), (DZKP, REP, "BA8"),
+    (DZKP, REP, "BA64"), (DZKP, REP, "Fp32BitPrime"), (DZKP, REP, "RP25519"),
+    (DZKP, BREP, "Boolean"), (DZKP, BREP, "Booleanx64"),
+    (SH, REP, "Fp32BitPrime"), (SH, REP, "Boolean"), (SH, BREP, "Boolean"),
+    (DZKPSH, REP, "Booleanx64"), (DZKPSH, REP, "Fp31"), (DZKPSH, BREP, "Boolean"),
+];
+
+async fn revimpl_async(q: RevReq) -> (String, Option<Arc<Tamper>>) {
+    match (q.ctx.as_str(), q.sharing.as_str(), q.vtype.as_str()) {
+        (MAC, REP, "Fp31") => rev_plain!(q, mac, Fp31, Fp31, 1),
+        (MAC, REP, "Fp32BitPrime") => rev_plain!(q, mac, Fp32BitPrime, Fp32BitPrime, 1),
+        (MAC, REP, "Fp32BitPrimex32") => rev_plain!(q, mac, Fp32BitPrime, Fp32BitPrime, 32),
+        (MAC, REP, "Fp25519") => rev_plain!(q, mac, Fp25519, Fp25519, 1),
+        (MAC, REP, "Fp25519x16") => rev_plain!(q, mac, Fp25519, Fp25519, 16),
+        (MAC, REP, "RP25519") => rev_plain!(q, mac, Fp25519, RP25519, 1),
+        (MAC, REP, "RP25519x16") => rev_plain!(q, mac, Fp25519, RP25519, 16),
+        (MAC, REP, "Boolean") => rev_plain!(q, mac, Fp32BitPrime, Boolean, 1),
+        (MAC, REP, "Booleanx64") => rev_plain!(q, mac, Fp32BitPrime, Boolean, 64),
+        (MAC, REP, "Booleanx256") => rev_plain!(q, mac, Fp25519, Boolean, 256),
+        (MAC, REP, "BA8") => rev_plain!(q, mac, Fp31, BA8, 1),
+        (MAC, REP, "BA64") => rev_plain!(q, mac, Fp32BitPrime, BA64, 1),
+        (MAC, MREP, "Fp31") => rev_mac!(q, mac, Fp31, 1, false),
+        (MAC, MREP, "Fp32BitPrime") => rev_mac!(q, mac, Fp32BitPrime, 1, false),
+        (MAC, MREP, "Fp25519") => rev_mac!(q, mac, Fp25519, 1, false),
+        (MAC, MREP, "Fp25519x16") => rev_mac!(q, mac, Fp25519, 16, false),
+        (MAC, BREP, "Boolean") => rev_bits!(q, mac, Fp32BitPrime, Boolean, 1),
+        (MAC, BREP, "Booleanx64") => rev_bits!(q, mac, Fp25519, Boolean, 64),
+        (MAC, BMREP, "Fp32BitPrime") => rev_mac!(q, mac, Fp32BitPrime, 1, true),
+        (MACS, REP, "Fp25519") => rev_plain!(q, macsharded, Fp25519, Fp25519, 1),
+        (MACS, REP, "RP25519x16") => rev_plain!(q, macsharded, Fp25519, RP25519, 16),
+        (MACS, REP, "Booleanx64") => rev_plain!(q, macsharded, Fp32BitPrime, Boolean, 64),
+        (MACS, REP, "BA8") => rev_plain!(q, macsharded, Fp32BitPrime, BA8, 1),
+        (MACS, MREP, "Fp32BitPrime") => rev_mac!(q, macsharded, Fp32BitPrime, 1, false),
+        (MACS, MREP, "Fp25519") => rev_mac!(q, macsharded, Fp25519, 1, false),
+        (MACS, BREP, "Boolean") => rev_bits!(q, macsharded, Fp32BitPrime, Boolean, 1),
+        (MACS, BMREP, "Fp32BitPrime") => rev_mac!(q, macsharded, Fp32BitPrime, 1, true),
+        (DZKP, REP, "Boolean") => rev_plain!(q, dzkp, Boolean, Boolean, 1),
+        (DZKP, REP, "Booleanx64") => rev_plain!(q, dzkp, Boolean, Boolean, 64),
+        (DZKP, REP, "Booleanx256") => rev_plain!(q, dzkp, Boolean, Boolean, 256),
+        (DZKP, REP, "BA8") => rev_plain!(q, dzkp, Boolean, BA8, 1),
+        (DZKP, REP, "BA64") => rev_plain!(q, dzkp, Boolean, BA64, 1),
+        (DZKP, REP, "Fp32BitPrime") => rev_plain!(q, dzkp, Boolean, Fp32BitPrime, 1),
+        (DZKP, REP, "RP25519") => rev_plain!(q, dzkp, Boolean, RP25519, 1),
+        (DZKP, BREP, "Boolean") => rev_bits!(q, dzkp, Boolean, Boolean, 1),
+        (DZKP, BREP, "Booleanx64") => rev_bits!(q, dzkp, Boolean, Boolean, 64),
+        (SH, REP, "Fp32BitPrime") => rev_plain!(q, sh, Fp32BitPrime, Fp32BitPrime, 1),
+        (SH, REP, "Boolean") => rev_plain!(q, sh, Fp32BitPrime, Boolean, 1),
+        (SH, BREP, "Boolean") => rev_bits!(q, sh, Fp31, Boolean, 1),
+        (DZKPSH, REP, "Booleanx64") => rev_plain!(q, dzkpsh, Boolean, Boolean, 64),
+        (DZKPSH, REP, "Fp31") => rev_plain!(q, dzkpsh, Boolean, Fp31, 1),
+        (DZKPSH, BREP, "Boolean") => rev_bits!(q, dzkpsh, Boolean, Boolean, 1),
+        (c, s, v) => panic!("harness: no runner for {c} {s} {v}"),
+    }
+}
+
+fn exec_revimpl(t: &[&str]) -> String {
+    if t[0] == "c04.revimpls" {
+        let mut ids: Vec<String> = REV_CASES.iter().map(|(c, s, _)| format!("{c}/{s}")).collect();
+        ids.sort();
+        ids.dedup();
+        return ids.join(",");
+    }
+    let q = RevReq {
+        ctx: t[1].into(),
+        sharing: t[2].into(),
+        vtype: t[3].into(),
+        entry: t[4].into(),
+        seed: t[5].parse().unwrap(),
+        x: t[6].into(),
+        ex: opt_role(t[7]),
+        at: opt_role(t[8]),
+        dest: opt_role(t[9]),
+        delta: t[10].into(),
+    };
+    match block_on_timeout(40, revimpl_async(q)) {
+        Err(e) => e,
+        // the copy that was to be altered never appeared on the wire
+        Ok((_, Some(t))) if t.hits.load(Ordering::SeqCst) == 0 => "untouched".into(),
+        Ok((out, _)) => out,
+    }
+}
+
+// ------------------------------------------------------------------------------------------ openings of eval_dy_prf
+
+/// the real `eval_dy_prf` (MAC context over Fp25519, one record of `N` lanes) with one altered copy on the opening of
+/// `R = g^r` (`PrfStep::RevealR`: a plain `Replicated<RP25519, N>`) or of `z` (`PrfStep::Revealz`: a MAC'd share).
+/// Response: `ref:<pseudonyms computed in the clear> <h1>,<h2>,<h3>`, `h` = `ok:<pseudonyms>` | `fail` | `err:<kind>` |
+/// `~` (not waited for: with an altered copy only the receiving helper is reported).
+macro_rules! prf_runner {
+    ($name:ident, $n:expr) => {
+        async fn $name(seed: u64, x: &str, k: &str, tamper: Option<Arc<Tamper>>, only: Option<usize>) -> String {
+            const N: usize = $n;
+            let world = TestWorld::new_with(rev_config(seed, &tamper));
+            let mut rng = Rng(seed ^ 0xC04);
+            let xa = <Fp25519 as Vt<N>>::parse(x);
+            let kv = val::<Fp25519>(k);
+            let reference: Vec<String> = xa
+                .clone()
+                .into_iter()
+                .map(|xv| u64::from(RP25519::from((xv + kv).invert())).to_string())
+                .collect();
+            let xs = share3_arr::<Fp25519, N>(&mut rng, &xa);
+            let ks = share3::<Fp25519>(&mut rng, kv);
+            let mut futs = world
+                .malicious_contexts()
+                .into_iter()
+                .zip(xs.into_iter().zip(ks))
+                .enumerate()
+                .map(|(h, (ctx, (xs, ks)))| async move {
+                    let v = ctx.set_total_records(1usize).validator::<Fp25519>();
+                    let r = eval_dy_prf::<_, N>(v.context(), RecordId::FIRST, &ks, xs).await;
+                    let o = match r {
+                        Ok(p) => format!("ok:{}", p.iter().map(u64::to_string).collect::<Vec<_>>().join("+")),
+                        Err(Error::MaliciousRevealFailed) => "fail".to_string(),
+                        Err(e) => format!("err:{}", kind(&e)),
+                    };
+                    drop(v);
+                    (h, o)
+                })
+                .collect::<FuturesUnordered<_>>();
+            let mut outs = vec!["~".to_string(); 3];
+            while let Some((h, o)) = futs.next().await {
+                if only.is_none() || only == Some(h) {
+                    outs[h] = o;
+                }
+                if only == Some(h) {
+                    break;
+                }
+            }
+            format!("ref:{} {}", reference.join("+"), outs.join(","))
+        }
+    };
+}
+
+prf_runner!(prf_run_1, 1);
+prf_runner!(prf_run_16, 16);
+
+/// `c04.prf <lanes> <seed> <x lanes> <k> <attacker|-> <dest|-> <R|z> <delta lanes>`
+fn exec_prf(t: &[&str]) -> String {
+    let lanes: usize = t[1].parse().unwrap();
+    let seed: u64 = t[2].parse().unwrap();
+    let (x, k) = (t[3].to_string(), t[4].to_string());
+    let step = if t[7] == "R" { PrfStep::RevealR } else { PrfStep::Revealz };
+    let altered = t[8].split('+').any(|d| d != "0");
+    let q = RevReq {
+        ctx: MAC.into(),
+        sharing: REP.into(),
+        vtype: String::new(),
+        entry: String::new(),
+        seed,
+        x: x.clone(),
+        ex: None,
+        at: opt_role(t[5]),
+        dest: opt_role(t[6]),
+        delta: t[8].into(),
+    };
+    let mut tamper = match (t[7], lanes) {
+        ("R", 1) => q.tamper::<RP25519, 1>(false),
+        ("R", 16) => q.tamper::<RP25519, 16>(false),
+        ("z", 1) => q.tamper::<Fp25519, 1>(false),
+        ("z", 16) => q.tamper::<Fp25519, 16>(false),
+        (s, n) => panic!("harness: no PRF runner for step {s} with {n} lanes"),
+    };
+    if let Some(tm) = tamper.as_mut() {
+        // the opening inside the protocol (not the validator's `validate/reveal_r`)
+        let tm = Arc::get_mut(tm).unwrap();
+        tm.targets[0].suffix = format!("/malicious_protocol/{}", step.as_ref());
+    }
+    let only = if altered { q.dest } else { None };
+    let tm = tamper.clone();
+    let r = block_on_timeout(40, async move {
+        match lanes {
+            1 => prf_run_1(seed, &x, &k, tm, only).await,
+            16 => prf_run_16(seed, &x, &k, tm, only).await,
+            n => panic!("harness: no PRF runner for {n} lanes"),
+        }
+    });
+    match (r, tamper) {
+        (Err(e), _) => e,
+        (Ok(_), Some(t)) if t.hits.load(Ordering::SeqCst) == 0 => "untouched".into(),
+        (Ok(out), _) => out,
+    }
+}
+
 fn opt_role(s: &str) -> Option<usize> {
     if s == "-" { None } else { Some(s.parse::<usize>().unwrap() - 1) }
 }
 
 fn exec_reveal(req: &str) -> String {
     let t: Vec<&str> = req.split(' ').collect();
+    if t[0] == "c04.revimpl" || t[0] == "c04.revimpls" {
+        return exec_revimpl(&t);
+    }
+    if t[0] == "c04.prf" {
+        return exec_prf(&t);
+    }
     let field = t[1].to_string();
     let seed: u64 = t[2].parse().unwrap();
     let x = t[3].to_string();
@@ -1025,8 +1825,163 @@ fn verif_c04_reveal() {
                 // a zero "error" changes nothing
                 out.push(format!("c04.reveal {field} {} 7 - 2 3 0", rng.below(1 << 30)));
             }
+            // EVERY `impl Reveal<Ctx> for Sharing`, through the trait's entry points on the real contexts
+            out.push("c04.revimpls".to_string());
+            for (n, (ctx, sharing, vtype)) in REV_CASES.iter().enumerate() {
+                let elements = if sharing.starts_with("BitDecomposed") { 3 } else { 1 };
+                let full = ["reveal", "method", "generic"];
+                let part = ["partial", "method", "generic"];
+                // honest: to everybody, and to everybody but one
+                let x = rev_value(rng, vtype, elements, n % 3 == 0);
+                out.push(format!("c04.revimpl {ctx} {sharing} {vtype} {} {} {x} - - - {}", full[n % 3], rng.below(1 << 30), rev_zero(vtype, elements)));
+                let x = rev_value(rng, vtype, elements, false);
+                out.push(format!(
+                    "c04.revimpl {ctx} {sharing} {vtype} {} {} {x} {} - - {}",
+                    part[n % 3], rng.below(1 << 30), 1 + n % 3, rev_zero(vtype, elements)
+                ));
+                // one altered copy: all six (attacker, destination) pairs — towards the right and towards the left
+                // neighbour; full opening, and partial with the third helper excluded
+                let right = [(1usize, 2usize), (2, 3), (3, 1)];
+                let left = [(1usize, 3usize), (2, 1), (3, 2)];
+                let reps = if thorough { 3 } else { 1 };
+                for rep in 0..reps {
+                    let mut k = n + rep;
+                    let pairs: Vec<(usize, usize, bool)> =
+                        right.iter().chain(left.iter()).flat_map(|(a, d)| [(*a, *d, false), (*a, *d, true)]).collect();
+                    for (at, dest, partial) in pairs {
+                        k += 1;
+                        let x = rev_value(rng, vtype, elements, k % 5 == 0);
+                        let delta = rev_delta(rng, vtype, elements, k);
+                        if partial {
+                            let third = 6 - at - dest;
+                            out.push(format!(
+                                "c04.revimpl {ctx} {sharing} {vtype} {} {} {x} {third} {at} {dest} {delta}",
+                                part[k % 3], rng.below(1 << 30)
+                            ));
+                        } else {
+                            out.push(format!(
+                                "c04.revimpl {ctx} {sharing} {vtype} {} {} {x} - {at} {dest} {delta}",
+                                full[k % 3], rng.below(1 << 30)
+                            ));
+                        }
+                    }
+                }
+                // a zero "error" changes nothing
+                let x = rev_value(rng, vtype, elements, false);
+                out.push(format!(
+                    "c04.revimpl {ctx} {sharing} {vtype} generic {} {x} - {} {} {}",
+                    rng.below(1 << 30), 1 + n % 3, 1 + (n + 1) % 3, rev_zero(vtype, elements)
+                ));
+            }
+            // the openings inside eval_dy_prf: R = g^r (a plain Replicated<RP25519, N>, never MAC-upgraded) and z
+            for lanes in [1usize, 16] {
+                let vt = if lanes == 1 { "Fp25519".to_string() } else { format!("Fp25519x{lanes}") };
+                for _ in 0..2 {
+                    let x = rev_value(rng, &vt, 1, false);
+                    let k = nonzero_val(rng, "Fp25519");
+                    out.push(format!("c04.prf {lanes} {} {x} {k} - - R {}", rng.below(1 << 30), rev_zero(&vt, 1)));
+                }
+                let reps = if thorough { 3 } else { 1 };
+                for rep in 0..reps {
+                    let mut n = rep;
+                    for step in ["R", "z"] {
+                        for (at, dest) in [(1usize, 2usize), (2, 3), (3, 1), (1, 3), (2, 1), (3, 2)] {
+                            n += 1;
+                            let x = rev_value(rng, &vt, 1, false);
+                            let k = nonzero_val(rng, "Fp25519");
+                            let delta = rev_delta(rng, &vt, 1, n);
+                            out.push(format!("c04.prf {lanes} {} {x} {k} {at} {dest} {step} {delta}", rng.below(1 << 30)));
+                        }
+                    }
+                }
+                let x = rev_value(rng, &vt, 1, false);
+                out.push(format!("c04.prf {lanes} {} {x} 77 2 3 R {}", rng.below(1 << 30), rev_zero(&vt, 1)));
+            }
             out
         },
         exec_reveal,
     );
+}
+
+/// (scalar type used for the lanes, lanes written per element, bits of a whole-array number)
+fn rev_shape(vtype: &str) -> (&str, usize, usize) {
+    let (base, n) = field_lanes(vtype);
+    match base {
+        "RP25519" => ("Fp25519", n, 0),
+        "Boolean" => ("", 1, n),
+        "BA8" => ("", 1, 8),
+        "BA64" => ("", 1, 64),
+        f => (f, n, 0),
+    }
+}
+
+fn rev_bits_val(rng: &mut Rng, bits: usize) -> String {
+    let mut b = rng.bytes(bits.div_ceil(8));
+    if bits % 8 != 0 {
+        let n = b.len();
+        b[n - 1] &= (1u8 << (bits % 8)) - 1;
+    }
+    le_to_dec(&b)
+}
+
+/// a value: `elements` elements of `lanes` lanes each (BitDecomposed: elements of one lane / one number)
+fn rev_value(rng: &mut Rng, vtype: &str, elements: usize, edges: bool) -> String {
+    let (f, lanes, bits) = rev_shape(vtype);
+    (0..elements * lanes)
+        .map(|i| {
+            if bits > 0 {
+                if edges && i == 0 { "0".to_string() } else { rev_bits_val(rng, bits) }
+            } else if edges {
+                edge_vals(f)[i % 3].clone()
+            } else {
+                rand_val(rng, f)
+            }
+        })
+        .collect::<Vec<_>>()
+        .join("+")
+}
+
+fn rev_zero(vtype: &str, elements: usize) -> String {
+    vec!["0"; elements * rev_shape(vtype).1].join("+")
+}
+
+/// an error: non-zero in one lane / element (the first, the last, a random one), or in all of them
+fn rev_delta(rng: &mut Rng, vtype: &str, elements: usize, k: usize) -> String {
+    let (f, lanes, bits) = rev_shape(vtype);
+    let n = elements * lanes;
+    let nz = |rng: &mut Rng, k: usize| -> String {
+        if bits > 0 {
+            match k % 3 {
+                0 => "1".to_string(),
+                // the top bit alone
+                1 => {
+                    let mut b = vec![0u8; bits.div_ceil(8)];
+                    b[(bits - 1) / 8] = 1 << ((bits - 1) % 8);
+                    le_to_dec(&b)
+                }
+                _ => loop {
+                    let v = rev_bits_val(rng, bits);
+                    if v != "0" {
+                        break v;
+                    }
+                },
+            }
+        } else {
+            match k % 3 {
+                0 => "1".to_string(),
+                1 => edge_vals(f)[2].clone(),
+                _ => nonzero_val(rng, f),
+            }
+        }
+    };
+    let which = match k % 4 {
+        0 => Some(0),
+        1 => Some(n - 1),
+        2 => Some(rng.usize_below(n)),
+        _ => None,
+    };
+    (0..n)
+        .map(|i| if which.is_none() || which == Some(i) { nz(rng, k + i) } else { "0".to_string() })
+        .collect::<Vec<_>>()
+        .join("+")
 }
